@@ -241,7 +241,8 @@ func propMpcUpdate(t *rapid.T, c *cv) {
 
 	// (3) multi-component forgeries and trapdoor-made updates (not produced by UpdateValues)
 	kind := rapid.SampledFrom([]string{"consistent_by_hand", "g1_and_g2_different_ratio", "pok_for_other_value", "pok_for_other_challenge",
-		"commitment_other_value", "g1_other_ratio", "g2_other_ratio", "one_power_replaced", "zero_contribution", "pok_plus_generator", "commitment_plus_cofactor_point"}).Draw(t, "forgery")
+		"commitment_other_value", "g1_other_ratio", "g2_other_ratio", "one_power_replaced", "zero_contribution", "pok_plus_generator", "commitment_plus_cofactor_point",
+		"identity_first_of_each_next_slice", "identity_all_g2_next", "identity_all_g1_next", "identity_all_prev", "identity_all_prev_and_next"}).Draw(t, "forgery")
 	a := in.a
 	b := c.drawNonZero(t, "b")
 	if b.Cmp(a) == 0 {
@@ -302,6 +303,33 @@ func propMpcUpdate(t *rapid.T, c *cv) {
 		reg.M(q, "Add", pok, c.pt(kG2, bi(extraG2)))
 		pok = q
 	}
+	// zero / identity substitutions on whole sides of the update (decided by the same predicate: a·0 = 0 is a
+	// consistent update of the identity, anything else is not)
+	p1, p2 := in.p1, in.p2
+	zeros := func(n int) []*big.Int {
+		out := make([]*big.Int, n)
+		for i := range out {
+			out[i] = new(big.Int)
+		}
+		return out
+	}
+	switch kind {
+	case "identity_first_of_each_next_slice":
+		if len(n1) > 0 {
+			n1[0] = new(big.Int)
+		}
+		if len(n2) > 0 {
+			n2[0] = new(big.Int)
+		}
+	case "identity_all_g2_next":
+		n2 = zeros(len(n2))
+	case "identity_all_g1_next":
+		n1 = zeros(len(n1))
+	case "identity_all_prev":
+		p1, p2 = zeros(len(p1)), zeros(len(p2))
+	case "identity_all_prev_and_next":
+		p1, p2, n1, n2 = zeros(len(p1)), zeros(len(p2)), zeros(len(n1)), zeros(len(n2))
+	}
 	if kind == "commitment_plus_cofactor_point" {
 		// commitment [a]G1 + T with T of order coprime to r, PoK [a]·R made for exactly that commitment: every pairing
 		// equation holds (T pairs trivially), only the subgroup check of the proof rejects. (Needs a cofactor: not on bn254 G1.)
@@ -315,7 +343,9 @@ func propMpcUpdate(t *rapid.T, c *cv) {
 	o := DeepCopy(in.obj)
 	ov := reflect.ValueOf(o).Elem()
 	ov.Field(0).Set(reflect.ValueOf(c.mpcProof(com, pok)).Elem())
+	ov.Field(3).Set(c.ptVec(kG1, p1))
 	ov.Field(4).Set(c.ptVec(kG1, n1))
+	ov.Field(5).Set(c.ptVec(kG2, p2))
 	ov.Field(6).Set(c.ptVec(kG2, n2))
 	want, why := c.mpcExpectObj(o)
 	err := c.mpcVerifyObj(o)
@@ -335,8 +365,11 @@ func propSameRatio(t *rapid.T, c *cv) {
 	test := "C17a_SameRatioMany/" + c.name
 	rho := c.drawScalar(t, "rho")
 	kind := rapid.SampledFrom([]string{"all_geometric", "all_geometric", "one_element_off", "one_slice_other_ratio", "g2_other_ratio", "last_element_off", "zero_slice_added"}).Draw(t, "kind")
+	// substitutions of zero / identity at the head of slices or of whole slices, in one group or in a whole group at once
+	sub := rapid.SampledFrom([]string{"none", "none", "none", "zero_first_one_g1_slice", "zero_first_one_g2_slice", "zero_first_all_g1", "zero_first_all_g2",
+		"all_infinity_one_g1_slice", "all_infinity_one_g2_slice", "all_infinity_all_g1", "all_infinity_all_g2", "all_infinity_both_groups"}).Draw(t, "sub")
 	k1 := rapid.IntRange(1, 3).Draw(t, "k1")
-	k2 := rapid.IntRange(1, 2).Draw(t, "k2")
+	k2 := rapid.IntRange(1, 3).Draw(t, "k2")
 	geo := func(start, ratio *big.Int, n int) []*big.Int {
 		out := make([]*big.Int, n)
 		cur := start
@@ -358,9 +391,6 @@ func propSameRatio(t *rapid.T, c *cv) {
 	case "one_element_off":
 		i := rapid.IntRange(0, k1-1).Draw(t, "i")
 		j := rapid.IntRange(0, len(s1[i])-1).Draw(t, "j")
-		if i == 0 && j == 0 {
-			j = 1 // keep the documented precondition (a non-zero first element) intact
-		}
 		s1[i][j] = c.F.Add(s1[i][j], bi(1))
 	case "last_element_off":
 		i := rapid.IntRange(0, k1-1).Draw(t, "i")
@@ -378,7 +408,49 @@ func propSameRatio(t *rapid.T, c *cv) {
 		}
 		s1 = append(s1, z)
 	}
-	// predicate
+	zeroFirst := func(a []*big.Int) { a[0] = new(big.Int) }
+	zeroAll := func(a []*big.Int) {
+		for i := range a {
+			a[i] = new(big.Int)
+		}
+	}
+	forAll := func(ss [][]*big.Int, f func([]*big.Int)) {
+		for _, a := range ss {
+			f(a)
+		}
+	}
+	switch sub {
+	case "zero_first_one_g1_slice":
+		zeroFirst(s1[rapid.IntRange(0, len(s1)-1).Draw(t, "si")])
+	case "zero_first_one_g2_slice":
+		zeroFirst(s2[rapid.IntRange(0, len(s2)-1).Draw(t, "si")])
+	case "zero_first_all_g1":
+		forAll(s1, zeroFirst)
+	case "zero_first_all_g2":
+		forAll(s2, zeroFirst)
+	case "all_infinity_one_g1_slice":
+		zeroAll(s1[rapid.IntRange(0, len(s1)-1).Draw(t, "si")])
+	case "all_infinity_one_g2_slice":
+		zeroAll(s2[rapid.IntRange(0, len(s2)-1).Draw(t, "si")])
+	case "all_infinity_all_g1":
+		forAll(s1, zeroAll)
+	case "all_infinity_all_g2":
+		forAll(s2, zeroAll)
+	case "all_infinity_both_groups":
+		forAll(s1, zeroAll)
+		forAll(s2, zeroAll)
+	}
+	// oracle. (1) documented guard: each group needs a slice whose FIRST element is non-zero ("need a nonzero
+	// representative in both groups": a degenerate side proves nothing) — whatever the order of the arguments;
+	// (2) otherwise: accepted exactly when a_{i,j}·b_{k,l+1} = a_{i,j+1}·b_{k,l} for all consecutive pairs.
+	someFirst := func(ss [][]*big.Int) bool {
+		for _, a := range ss {
+			if a[0].Sign() != 0 {
+				return true
+			}
+		}
+		return false
+	}
 	holds := true
 	for _, a := range s1 {
 		for j := 0; j+1 < len(a); j++ {
@@ -391,23 +463,65 @@ func propSameRatio(t *rapid.T, c *cv) {
 			}
 		}
 	}
+	why := fmt.Sprintf("srm_relation:%v", holds)
+	want := holds
+	if !someFirst(s1) || !someFirst(s2) {
+		want, why = false, "srm_no_nonzero_first_element_in_a_group"
+	}
+	// the argument list in a rapid-drawn order of all G1 and G2 slices
+	type arg struct {
+		g int
+		v []*big.Int
+	}
+	var all []arg
+	for _, a := range s1 {
+		all = append(all, arg{kG1, a})
+	}
+	for _, b := range s2 {
+		all = append(all, arg{kG2, b})
+	}
+	perm := rapid.Permutation(all).Draw(t, "order")
 	var args []interface{}
-	// interleave G1 and G2 slices
-	for i := 0; i < len(s1) || i < len(s2); i++ {
-		if i < len(s1) {
-			args = append(args, c.ptVec(kG1, s1[i]).Interface())
-		}
-		if i < len(s2) {
-			args = append(args, c.ptVec(kG2, s2[i]).Interface())
-		}
+	order := ""
+	for _, a := range perm {
+		args = append(args, c.ptVec(a.g, a.v).Interface())
+		order += fmt.Sprint(a.g + 1)
 	}
-	err := errOf(c.mpc.F("SameRatioMany", args...))
-	key := fmt.Sprintf("%s %s rho=%s g1=%v g2=%v", c.name, kind, rho.Text(16), s1, s2)
-	if holds != (err == nil) {
-		t.Fatalf("mpcsetup/%s: SameRatioMany verdict %v but the same-ratio relation is %v (%s)", c.name, err, holds, key)
+	lastOf := func(ch byte) int {
+		for i := len(order) - 1; i >= 0; i-- {
+			if order[i] == ch {
+				return i
+			}
+		}
+		return -1
 	}
-	rep.Case(test, key, true, "same_ratio_many", "curve:"+c.name, "exponent", "srm:"+kind, fmt.Sprintf("srm_relation:%v", holds),
-		fmt.Sprintf("srm_g1_slices:%d", len(s1)), fmt.Sprintf("srm_g2_slices:%d", len(s2)))
+	firstOf := func(ch byte) int {
+		for i := 0; i < len(order); i++ {
+			if order[i] == ch {
+				return i
+			}
+		}
+		return -1
+	}
+	oclass := "interleaved"
+	if lastOf('1') < firstOf('2') {
+		oclass = "all_g1_before_g2"
+	} else if lastOf('2') < firstOf('1') {
+		oclass = "all_g2_before_g1"
+	}
+	err, pan := guard(func() error { return errOf(c.mpc.F("SameRatioMany", args...)) })
+	key := fmt.Sprintf("%s %s sub=%s order=%s rho=%s g1=%v g2=%v", c.name, kind, sub, order, rho.Text(16), s1, s2)
+	if pan != "" {
+		t.Fatalf("mpcsetup/%s: SameRatioMany panics: %s (%s)", c.name, pan, key)
+	}
+	if want && err != nil {
+		t.Fatalf("mpcsetup/%s: SameRatioMany rejects (%v) sequences that all have the same ratio (%s)", c.name, err, key)
+	}
+	if !want && err == nil {
+		t.Fatalf("mpcsetup/%s: FORGERY ACCEPTED: SameRatioMany returned nil although %s (%s)", c.name, why, key)
+	}
+	rep.Case(test, key, true, "same_ratio_many", "curve:"+c.name, "exponent", "srm:"+kind, "srm_sub:"+sub, "srm_order:"+oclass, "srm_first_arg:g"+order[:1], why,
+		fmt.Sprintf("srm_verdict_accept:%v", want), fmt.Sprintf("srm_g1_slices:%d", len(s1)), fmt.Sprintf("srm_g2_slices:%d", len(s2)))
 }
 
 func TestC17a_MpcUpdate(t *testing.T) {
